@@ -20,10 +20,16 @@ import dns.rdataclass
 import dns.rdatatype
 import dns.rdtypes.ANY.TSIG
 import dns.renderer
+import dns.rrset
 import dns.tsig
 import dns.tsigkeyring
 
 from lib import Err
+
+# dns.rdata.get_rdata_class caches GenericRdata under (ANY, type) when a record of an IN-only type
+# arrives in class ANY, and later resolves (IN, type) through that entry; the tampering loops below
+# produce such records, so every implemented type is loaded up front (keeps the run order-independent)
+dns.rdata.load_all_types(False)
 
 ID = "C14"
 COQ_IMPORTS = "From DV Require Import Model.TsigM."
@@ -1417,4 +1423,145 @@ def read_oracle(kind, w, kr, rmac, cx, multi, now, out):
         fail("from_wire validated a message that RFC 8945 rejects: " + str(v[:2]), sig="accept:" + str(v[1]))
     if v[0] == "accept" and not validated:
         fail("from_wire rejected a genuine signed message: " + (out.text if isinstance(out, Err) else "no TSIG seen"), sig="reject-genuine")
+    return F
+
+
+# ----------------------------------------------------------------------------- exhaustive single-bit tampering
+
+
+def realistic_message(rng):
+    """a query or response with ordinary record types, rendered by the library (no TSIG)"""
+    qn = dns.name.from_text(rng.choice(["www.example.com.", "Mail.Example.ORG.", "a.b.c.d.example.", "example."]))
+    q = dns.message.make_query(qn, rng.choice(["A", "AAAA", "MX", "SOA", "TXT", "AXFR"]), use_edns=rng.choice([False, 0]), id=rng.randrange(65536))
+    if rng.random() < 0.4:
+        return q.to_wire()
+    r = dns.message.make_response(q)
+    texts = ["www.example.com. 300 IN A 10.0.0.%d" % rng.randrange(256), "example.com. 3600 IN NS ns1.example.com.",
+             "example.com. 3600 IN SOA ns1.example.com. root.example.com. %d 7200 3600 1209600 3600" % rng.randrange(2 ** 32),
+             'example.com. 60 IN TXT "v=spf1 -all" "%d"' % rng.randrange(1000), "example.com. 300 IN MX 10 mail.example.com.",
+             "ns1.example.com. 300 IN AAAA 2001:db8::%x" % rng.randrange(65536)]
+    for sec in (r.answer, r.authority, r.additional):
+        for _ in range(rng.choice([0, 1, 1, 2])):
+            t = rng.choice(texts).split(None, 4)
+            sec.append(dns.rrset.from_text(t[0], int(t[1]), t[2], t[3], t[4]))
+    return r.to_wire()
+
+
+def flip_sources(ctx):
+    """signed messages to tamper with: (wire, key, rmac, now, running-ctx or None)"""
+    rng = ctx.rng
+    n = ctx.n(36, 700)
+    for i in range(n):
+        k = gen_key(rng, 0)
+        r = rng.random()
+        if r < 0.35:
+            body = realistic_message(rng)
+        elif r < 0.5:
+            body = lib_wire(rng)
+        else:
+            body = build_wire(rng)
+        if len(body) > 230:
+            body = build_wire(rng)
+        rmac = b"" if rng.random() < 0.5 else gen_mac(rng)
+        time = rng.choice([1700000000, 2 ** 32 + 5, 12345])
+        if rng.random() < 0.5:
+            # signed by the library itself
+            try:
+                m = dns.message.from_wire(body)
+                m.use_tsig(mk_key(k), fudge=300, original_id=rng.choice([None, rng.randrange(65536)]))
+                m.request_mac = rmac
+                with clock(time):
+                    full = m.to_wire(want_shuffle=False)
+            except Exception:  # noqa
+                continue
+        else:
+            ow = None
+            if rng.random() < 0.3 and walk(body)["counts"][0]:
+                nm, _ = walk_name(body, 12)
+                k = [nm, k[1], k[2]]
+                ow = bytes([0xC0, 12])
+            full = signed_wire(rng, wire=body, k=k, rmac=rmac, time=time, fudge=300, owner_wire=ow)[0]
+        yield full, k, rmac, time
+
+
+def extra(ctx):
+    F = []
+    nflips = nacc = nmsgs = 0
+    accepted_regions = {}
+    for full, k, rmac, now in flip_sources(ctx):
+        key = mk_key(k)
+        v0 = rfc_verdict(full, k[0], k[1], k[2], rmac, now)
+        try:
+            with clock(now):
+                m0 = dns.message.from_wire(full, keyring=key, request_mac=rmac)
+            ok0 = m0.had_tsig
+        except Exception as e:  # noqa
+            ok0 = False
+        if v0[0] != "accept" or not ok0:
+            F.append({"kind": "flip:genuine-rejected", "what": "a genuine signed message does not validate (%s / %s)" % (v0[:2], ok0),
+                      "case_kind": "read:genuine", "case": read_case(full, [1, k], [k], rmac, now), "sig": "genuine"})
+            continue
+        nmsgs += 1
+        content0 = v0[2]
+        info = walk(full)
+        last = info["rrs"][-1]
+        b = bytearray(full)
+        for bit in range(len(full) * 8):
+            b[bit >> 3] ^= 1 << (bit & 7)
+            w = bytes(b)
+            b[bit >> 3] ^= 1 << (bit & 7)
+            nflips += 1
+            try:
+                with clock(now):
+                    m = dns.message.from_wire(w, keyring=key, request_mac=rmac)
+                validated = bool(m.had_tsig)
+            except Exception:  # noqa
+                validated = False
+            if not validated:
+                continue
+            nacc += 1
+            v = rfc_verdict(w, k[0], k[1], k[2], rmac, now)
+            pos = bit >> 3
+            region = "id" if pos < 2 else "tsig-owner" if last["start"] <= pos < last["rdata"] - 10 else "tsig-rdata" if pos >= last["rdata"] else "other"
+            accepted_regions[region] = accepted_regions.get(region, 0) + 1
+            if v[0] != "accept" or v[2] != content0:
+                F.append({"kind": "flip:accepted", "what": "a signed message altered in one bit (octet %d, region %s) was accepted as validated; RFC 8945 verdict %s"
+                          % (pos, region, v[:2]), "case_kind": "read:flip", "case": read_case(w, [1, k], [k], rmac, now), "sig": "flip-accepted", "bit": bit})
+                break
+    # multi-message: every bit of an envelope sent without TSIG is covered by the next MAC
+    rng = ctx.rng
+    nstream = 0
+    for _ in range(ctx.n(6, 120)):
+        envs, k, rmac, base, fudge = gen_stream(rng, n=rng.choice([3, 4]))
+        envs = [envs[0]] + [(build_wire(rng), False) + e[2:] for e in envs[1:-1]] + [envs[-1]]
+        ws, _ents = ref_sign_stream(envs, k, rmac)
+        key = mk_key(k)
+        for j in range(1, len(ws) - 1):
+            b = bytearray(ws[j])
+            for bit in range(len(b) * 8):
+                b[bit >> 3] ^= 1 << (bit & 7)
+                ws2 = ws[:j] + [bytes(b)] + ws[j + 1:]
+                b[bit >> 3] ^= 1 << (bit & 7)
+                nflips += 1
+                nstream += 1
+                c = None
+                okall = True
+                try:
+                    for w in ws2:
+                        with clock(base):
+                            m = dns.message.from_wire(w, keyring=key, request_mac=rmac, tsig_ctx=c, multi=True)
+                        c = m.tsig_ctx
+                    okall = bool(m.had_tsig)
+                except Exception:  # noqa
+                    okall = False
+                if okall:
+                    F.append({"kind": "flip:stream-accepted", "what": "an unsigned intermediate envelope altered in one bit (envelope %d, bit %d) and the exchange still validated" % (j, bit),
+                              "case_kind": "stream-tamper", "case": [7, ws2, [1, k], rmac, base, table(*stream_read_table(ws2, k, rmac))], "sig": "stream-flip"})
+                    break
+    ctx.notes["exhaustive"] = True
+    ctx.notes["extra_evaluations"] = nflips
+    ctx.notes["extra_nontrivial"] = nmsgs
+    ctx.notes["bitflip"] = {"signed_messages": nmsgs, "single_bit_alterations": nflips, "of_which_in_unsigned_envelopes": nstream,
+                            "still_validated": nacc, "still_validated_by_region": accepted_regions,
+                            "unauthenticated_region": "message ID octets 0-1 (RFC 8945 4.3.2 digests the original ID) and the case bit of letters in the TSIG owner / algorithm name (4.3.3: canonical form)"}
     return F
